@@ -49,17 +49,13 @@ Fixpoint last_next (L : list tx) : list N :=
   | [] => []
   | t :: r => match r with [] => next t | _ :: _ => last_next r end
   end.
-Definition last_next_empty (L : list tx) : bool :=
-  match last_next L with [] => true | _ :: _ => false end.
-
 Definition sig_enabled (ds : list drv) (h : Z) (t : tx) : bool :=
   match signature t with
   | Some s => (h <? 0)%Z || enabled ds (crypto_id (s_ty s)) h
   | None => false
   end.
 
-(** the circumstances under which the first clause promises acceptance
-    ([pass_guard] adds the condition that finding 1 is about) *)
+(** the circumstances under which the first clause promises acceptance *)
 Definition pass_guard0 (e : env) (ds : list drv) (G : list tx) : bool :=
   let n := Z.of_nat (length G) in
   (2 <=? n)%Z && (n <=? max_group)%Z &&
@@ -68,8 +64,6 @@ Definition pass_guard0 (e : env) (ds : list drv) (G : list tx) : bool :=
   others_fee_free G && sizes_ok G && (required_fee (e_minfee e) G <=? head_fee G)%Z &&
   negb ((head_fee G >? e_maxfee e)%Z && (e_maxfee e >? 0)%Z && is_fork (e_height e) (e_block e)) &&
   forallb (sig_enabled ds (e_height e)) G.
-Definition pass_guard (e : env) (ds : list drv) (G : list tx) : bool :=
-  pass_guard0 e ds G && last_next_empty G.
 
 (** [G0]: the created group after its members signed; [L]: the presented
     group; [chk]: error class of Check (0 = nil, 100 = panic); [sgn]: CheckSign
@@ -83,7 +77,8 @@ Definition spec_entry (e : env) (ds : list drv) (issued G0 L : list tx) (chk sgn
   (if accepted then same_content L G0 && forallb (authentic issued) L else true) &&
   spec_fee e L chk.
 
-(** * Signatures of the recorded findings (known_findings/C17.json) *)
+(** * Signatures of the open findings (known_findings/C17.json; finding 1 is
+    fixed and has no signature any more) *)
 (** exactly one position differs, by [p] *)
 Fixpoint one_diff (p : tx -> tx -> bool) (G L : list tx) : bool :=
   match G, L with
@@ -101,9 +96,7 @@ Definition only_ty_bits (g l : tx) : bool :=
 
 Definition kf_classify17 (e : env) (ds : list drv) (issued G0 L : list tx) (chk sgn : N) : N :=
   let accepted := N.eqb chk 0 && N.eqb sgn 1 in
-  if same_content L G0 && forallb (authentic issued) L && pass_guard0 e ds L &&
-     negb (last_next_empty L) && N.eqb chk 13 then 1
-  else if accepted && one_diff (fun g l => negb (N.eqb (kf_classify g l 1) 0)) G0 L then 2
+  if accepted && one_diff (fun g l => negb (N.eqb (kf_classify g l 1) 0)) G0 L then 2
   else if accepted && one_diff only_ty_bits G0 L then 3
   else 0.
 
@@ -145,16 +138,3 @@ Definition C17_tamper_detected_full : Prop :=
     check_group H e L = EOk -> group_check_sign ds verify L h = true ->
     L = G.
 
-(** "a created group passes" (its members signed in any way: [L]), under the
-    conditions on the environment and the fees but without the condition on
-    the last input's [next] *)
-Definition C17_created_group_checks_full : Prop :=
-  forall (H : list N -> list N) txs rate G L e tot,
-    create_group H txs rate = inr G ->
-    map unsig L = map unsig G ->
-    (Z.of_nat (length G) <= max_group)%Z ->
-    existsb (chain_bad e) L = false ->
-    (is_fork (e_height e) (e_para e) = true -> para_ok L = true) ->
-    sum_fees L (e_minfee e) 0 = Some tot -> (tot <= head_fee L)%Z ->
-    ((head_fee L >? e_maxfee e)%Z && (e_maxfee e >? 0)%Z && is_fork (e_height e) (e_block e) = false) ->
-    check_group H e L = EOk.
